@@ -81,6 +81,15 @@ var varKinds = []*Kind{
 		p.Blk(s.Ch[0])
 		p.W("}")
 	}},
+	// the post statement mentions x only inside a function literal
+	{Name: "ForPostYClo", Arity: 1, Loop: true, Yields: true, Print: func(p *Printer, s *Stmt) {
+		p.W("for n := 0; n < 2; %s {", p.Y("c.W("+itoa(p.ID())+", func() int { return x }())"))
+		p.In()
+		p.W("n++")
+		p.Out()
+		p.Blk(s.Ch[0])
+		p.W("}")
+	}},
 	{Name: "ForPostUpd", Arity: 1, Loop: true, Print: func(p *Printer, s *Stmt) {
 		p.W("for n := 0; n < 2; x = x*5 + %d {", p.ID())
 		p.In()
